@@ -11,7 +11,12 @@ import (
 	"sync"
 
 	"github.com/cronokirby/saferith"
+	"github.com/taurusgroup/multi-party-sig/internal/types"
 	"github.com/taurusgroup/multi-party-sig/pkg/ecdsa"
+	"github.com/taurusgroup/multi-party-sig/pkg/math/polynomial"
+	"github.com/taurusgroup/multi-party-sig/pkg/paillier"
+	"github.com/taurusgroup/multi-party-sig/pkg/pedersen"
+	cmpconfig "github.com/taurusgroup/multi-party-sig/protocols/cmp/config"
 	"github.com/taurusgroup/multi-party-sig/pkg/math/curve"
 	"github.com/taurusgroup/multi-party-sig/pkg/math/sample"
 	"github.com/taurusgroup/multi-party-sig/pkg/party"
@@ -358,4 +363,37 @@ func (r *RunResult) Describe() string {
 		s += fmt.Sprint(r.Anomalies)
 	}
 	return s
+}
+
+// ---------------------------------------------------------------------------------------------
+// trusted-dealer CMP material (what the library's own tests use instead of running keygen);
+// InstallPrimeSource must have been called so that Paillier keys come from the fixture primes.
+
+// DealCmp creates consistent CMP configs for ids with threshold t from the deterministic stream `seed`.
+func DealCmp(ids []party.ID, t int, seed string) map[party.ID]interface{} {
+	out := map[party.ID]interface{}{}
+	src := sim.NewDetReader("deal/" + seed)
+	sim.WithRand(src, func() {
+		group := Group
+		public := make(map[party.ID]*cmpconfig.Public, len(ids))
+		f := polynomial.NewPolynomial(group, t, sample.Scalar(src, group))
+		rid, _ := types.NewRID(src)
+		chainKey, _ := types.NewRID(src)
+		for _, pid := range sorted(ids) {
+			paillierSecret := paillier.NewSecretKey(nil)
+			s, tt, _ := sample.Pedersen(src, paillierSecret.Phi(), paillierSecret.N())
+			pedersenPublic := pedersen.New(paillierSecret.Modulus(), s, tt)
+			elGamalSecret := sample.Scalar(src, group)
+			ecdsaSecret := f.Evaluate(pid.Scalar(group))
+			out[pid] = &cmp.Config{
+				Group: group, ID: pid, Threshold: t, ECDSA: ecdsaSecret, ElGamal: elGamalSecret,
+				Paillier: paillierSecret, RID: rid.Copy(), ChainKey: chainKey.Copy(), Public: public,
+			}
+			public[pid] = &cmpconfig.Public{
+				ECDSA: ecdsaSecret.ActOnBase(), ElGamal: elGamalSecret.ActOnBase(),
+				Paillier: paillierSecret.PublicKey, Pedersen: pedersenPublic,
+			}
+		}
+	})
+	return out
 }
